@@ -78,11 +78,10 @@ func (r RaceReport) Sig() string {
 	return "race:" + a + "~" + b
 }
 
-// LoadRaceFunctions reads the committed calibration set: library functions that are known to
-// take part in data races between the main loop, the resize goroutine and application
-// goroutines on the unchanged tree (read-only at run time).
-func LoadRaceFunctions() map[string]bool {
-	out := map[string]bool{"harness": true}
+// LoadRacePairs reads the committed calibration list: signatures of data races involving the key
+// reader (the only part of the library with locking) observed on the unchanged tree.
+func LoadRacePairs() map[string]bool {
+	out := map[string]bool{}
 	b, err := os.ReadFile(filepath.Join(verifRoot(), "race_known_functions.txt"))
 	if err != nil {
 		return out
@@ -96,11 +95,37 @@ func LoadRaceFunctions() map[string]bool {
 	return out
 }
 
+// isKeysFn: a function of the key reader (internal/core/keys*.go), the component whose shared
+// state is meant to be protected by Keys.mutex.
+func isKeysFn(fn string) bool {
+	if strings.HasPrefix(fn, "core.(*Keys).") {
+		return true
+	}
+	for _, p := range []string{"core.WaitAvailableKeys", "core.PopKey", "core.PeekKey", "core.MatchedKeys", "core.MatchedPrefix", "core.PopForce", "core.MacroKeys", "core.FlushUsed"} {
+		if fn == p || strings.HasPrefix(fn, p+".") {
+			return true
+		}
+	}
+	return false
+}
+
+// Race reports are classed in two families:
+//   - at least one racing function belongs to the key reader: signature race:keys|<a>~<b>; covered by the
+//     known finding only if that exact pair is in the committed calibration list (so a lock removed from
+//     the key reader, which exposes a new pair, is a violation);
+//   - otherwise the race is on editor state that has no synchronisation at all (line, cursor, display and
+//     completion engines): signature race:editor-state|<outermost entry points>, i.e. which goroutines race.
 func collectRaces(agg *Agg, work string) {
 	files, _ := filepath.Glob(filepath.Join(work, "race-*"))
 	sort.Strings(files)
-	known := LoadRaceFunctions()
+	known := LoadRacePairs()
 	n := 0
+	set := func(name, v string) {
+		if agg.Sets[name] == nil {
+			agg.Sets[name] = map[string]bool{}
+		}
+		agg.Sets[name][v] = true
+	}
 	for _, f := range files {
 		b, err := os.ReadFile(f)
 		if err != nil {
@@ -113,23 +138,29 @@ func collectRaces(agg *Agg, work string) {
 				continue
 			}
 			e0, e1 := r.Entries[0], r.Entries[1]
+			if e0 == "" {
+				e0 = "harness"
+			}
+			if e1 == "" {
+				e1 = "harness"
+			}
 			if e0 > e1 {
 				e0, e1 = e1, e0
 			}
-			if agg.Sets["race_entry_pairs"] == nil {
-				agg.Sets["race_entry_pairs"] = map[string]bool{}
-			}
-			agg.Sets["race_entry_pairs"][e0+" ~ "+e1] = true
-			if agg.Sets["race_functions_seen"] == nil {
-				agg.Sets["race_functions_seen"] = map[string]bool{}
-			}
-			agg.Sets["race_functions_seen"][r.Tops[0]] = true
-			agg.Sets["race_functions_seen"][r.Tops[1]] = true
-			if known[r.Tops[0]] && known[r.Tops[1]] {
-				agg.addFinding(-1, Finding{Sig: "race:both-functions-in-the-known-set", Detail: firstN(r.Text, 3000)})
+			set("race_entry_pairs", e0+" ~ "+e1)
+			set("race_functions_seen", r.Tops[0])
+			set("race_functions_seen", r.Tops[1])
+			if isKeysFn(r.Tops[0]) || isKeysFn(r.Tops[1]) {
+				sig := strings.Replace(r.Sig(), "race:", "race:keys|", 1)
+				set("race_keys_pairs_seen", sig)
+				if known[sig] {
+					agg.addFinding(-1, Finding{Sig: "race:keys|pair-in-the-calibrated-list", Detail: firstN(r.Text, 3000)})
+				} else {
+					agg.addFinding(-1, Finding{Sig: sig, Detail: firstN(r.Text, 3000)})
+				}
 				continue
 			}
-			agg.addFinding(-1, Finding{Sig: r.Sig(), Detail: firstN(r.Text, 3000)})
+			agg.addFinding(-1, Finding{Sig: "race:editor-state|" + e0 + "~" + e1, Detail: firstN(r.Text, 3000)})
 		}
 	}
 	agg.Count["race_reports"] = n
